@@ -104,6 +104,7 @@ def parseOp (ws : List String) : Option Op :=
   | ["srestart"] => some .svcRestart
   | ["screate", o, env] => do some (Op.svcCreate (← o.toNat?) (parseEnv env))
   | ["sdelete", o] => o.toNat?.map Op.svcDelete
+  | ["sdeletecut", o] => o.toNat?.map Op.svcDeleteCut
   | ["ssync"] => some .svcSync
   | _ => none
 
